@@ -59,7 +59,10 @@ def check(run, driver):
                             base[:, -1] += base[:, 0]
                     else:
                         mix = rng.standard_normal((kx + ky + kz, kx + ky + kz)) * 0.5 + np.eye(kx + ky + kz)
-                        base = rng.standard_normal((N, kx + ky + kz)) @ mix
+                        if rep % 2:
+                            base = rng.uniform(0, 2, size=(N, kx + ky + kz)) @ (mix if rep % 4 == 1 else np.eye(kx + ky + kz))   # platykurtic data: KDE terms can be negative
+                        else:
+                            base = rng.standard_normal((N, kx + ky + kz)) @ mix
                     X, Y, Z = base[:, :kx], base[:, kx:kx + ky], (base[:, kx + ky:] if cond else None)
                     st = {"metric": ["euclidean", "cityblock", "chebyshev"][rep % 3], "k": int(rng.integers(1, 5)), "bandwidth": ["silverman", "scott", 0.6][rep % 3]}
                     path = "Z given" if cond else "Z is None"
